@@ -480,6 +480,11 @@ impl<N, E, S: BuildHasher, Ty: EdgeType, Null: Nullable<Wrapped = E>, Ix: IndexT
         b: NodeIndex<Ix>,
         weight: E,
     ) -> Result<Option<E>, MatrixError> {
+        // existing nodes may still lie beyond the current matrix capacity
+        // (the matrix only grows when an edge is inserted): grow first
+        if self.get_node_weight(a).is_some() && self.get_node_weight(b).is_some() {
+            self.extend_capacity_for_edge(a, b);
+        }
         self.assert_node_bounds(a, b)?;
         Ok(self.update_edge(a, b, weight))
     }
